@@ -74,6 +74,7 @@ section tactics
 theorem arg_eq {β : Type} (f : M33 α → β) {X Y : M33 α} (h : X = Y) : f X = f Y := by rw [h]
 end tactics
 
+set_option hygiene false in
 /-- common proof: unfold the extracted definition, name the two solver results, identify the solver's argument with `cov`,
 compare entrywise -/
 macro "procrustes_tac" : tactic => `(tactic| (
